@@ -86,6 +86,9 @@ func (p *Prop[C]) safeRun(c C) (o *Outcome) {
 	defer func() {
 		if r := recover(); r != nil {
 			st := string(debug.Stack())
+			if pw, ok := r.(*PanicWithStack); ok {
+				r, st = pw.Val, pw.Stack
+			}
 			o = NewOutcome()
 			o.Failf(p.Props[0], PanicSig(r, st), "panic: %v\n%s", r, st)
 		}
@@ -148,6 +151,7 @@ func (p *Prop[C]) exec(t Failer, c C) {
 // Check drives the property with rapid. Case count and seed come from the
 // -rapid.checks / -rapid.seed flags the driver passes.
 func (p *Prop[C]) Check(t *testing.T) {
+	SetT(t)
 	defer FlushFailures()
 	rapid.Check(t, func(rt *rapid.T) {
 		if OverBudget() {
